@@ -4,6 +4,7 @@
    (valid_res, mem_denotes, time_denotes, dominates, filled, mentions_all) = Model/ResourcesSpec.v. *)
 From Coq Require Import QArith.
 From Verif Require Import Base.Prelude Model.Resources Model.ResourcesSpec Proofs.ResourcesFacts.
+From Verif Require Import Corr.Run_C20 Proofs.ResourcesCorrFacts.
 Local Close Scope Q_scope.
 
 (* combine_max of valid operands never fails, returns a valid value that is at least as large as every operand in
@@ -96,6 +97,30 @@ Theorem C20_time_grammar : forall t,
   /\ (forall n, time_denotes t n -> time_secs t = Ok n).
 Proof. exact (fun t => conj (valid_time_iff t) (fun n => denotes_time_secs t n)). Qed.
 Print Assumptions C20_time_grammar.
+
+(* ---- the executable statement used by the correspondence check ----
+   spec_ok (Corr/Run_C20.v) is what the engine evaluates on the observations of the real implementation.
+   It holds of the model's own observation for every case (all constructor arguments, operand lists, keyword
+   lists, dicts).  Full statement:   forall c, spec_ok c (run c) = true
+   is FALSE (known finding slurm-gpus-zero-omitted, the same defect as C20_slurm_mentions_all_refuted): *)
+Theorem C20_spec_ok_run_refuted : exists c, known_region c = true /\ spec_ok c (run c) = false.
+Proof. exact spec_ok_run_refuted. Qed.
+Print Assumptions C20_spec_ok_run_refuted.
+
+Theorem C20_spec_ok_run_partial : forall c, known_region c = false -> spec_ok c (run c) = true.
+Proof. exact spec_ok_run_partial. Qed.
+Print Assumptions C20_spec_ok_run_partial.
+
+Example C20_spec_ok_run_example :
+  let a := mkR (Some 2%Z) None None (Some (s "1500MB")) None (Some (s "2:00:00")) None [] (s "external") in
+  let b := mkR (Some 1%Z) None None (Some (s "1.2gb")) (Some 0%Z) (Some (s "10:00:00")) None [] (s "external") in
+  known_region (CCombine [a; b]) = false /\ forallb operand_ok [a; b] = true.
+Proof. split; reflexivity. Qed.
+
+(* the boolean validity used by spec_ok is the declarative one *)
+Theorem C20_sp_valid_iff : forall r, sp_valid r = true <-> valid_res r.
+Proof. exact sp_valid_iff. Qed.
+Print Assumptions C20_sp_valid_iff.
 
 (* ---- the behaviour before the repairs (model of the old code), kept as refutations ---- *)
 (* r.update(foo=1) changed r.extra_args and shared the dict with the result *)
